@@ -5,12 +5,14 @@ HERE="$(cd "$(dirname "$0")" && pwd)"
 cd "$HERE"
 exec 9>"$HERE/.venv.lock"
 flock 9
+SP=.venv/lib/python3.12/site-packages
+write_pth() { printf "import site; site.addsitedir('/venv/lib/python3.12/site-packages')\n/repo/src\n/repo\n" > $SP/_overlay.pth; }
 if [ -x .venv/bin/crosshair ] && .venv/bin/python -c "import crosshair, z3, jsonschema, lxml" 2>/dev/null; then
+  write_pth
   exit 0
 fi
 rm -rf .venv
 /venv/bin/python -m venv .venv
-SP=.venv/lib/python3.12/site-packages
-printf "import site; site.addsitedir('/venv/lib/python3.12/site-packages')\n/repo/src\n/repo\n" > $SP/_overlay.pth
+write_pth
 PIP_NO_INDEX=1 .venv/bin/pip install -q --no-index --find-links /opt/veriftools/wheels crosshair-tool z3-solver jsonschema >/dev/null
 .venv/bin/python -c "import crosshair, z3, jsonschema, lxml, sdc11073"
